@@ -1322,10 +1322,12 @@ int ABT_thread_yield_to(ABT_thread thread)
     /* Remove the target ULT from the pool */
     /* This is necessary to prevent the size of this pool from 0. */
     ABTI_pool_inc_num_blocked(p_cur_ythread->thread.p_pool);
+    ABTI_VERIF_EV(ABTI_VEV_NB_WHO, &p_cur_ythread->thread, p_cur_ythread->thread.p_pool, 1);
     int abt_errno = ABTI_pool_remove(p_tar_ythread->thread.p_pool,
                                      p_tar_ythread->thread.unit);
     if (ABTI_IS_ERROR_CHECK_ENABLED && abt_errno != ABT_SUCCESS) {
         ABTI_pool_dec_num_blocked(p_cur_ythread->thread.p_pool);
+        ABTI_VERIF_EV(ABTI_VEV_NB_WHO, &p_cur_ythread->thread, p_cur_ythread->thread.p_pool, 2);
         ABTI_HANDLE_ERROR(abt_errno);
     }
 
